@@ -579,6 +579,15 @@ func resolveTypeRoles(p *Program) {
 		ex := execNamedOf(p, "circuitbreaker")
 		return implements(n, "circuitbreaker", "Metrics") && !declaresToExecutor(n, nil) && (ex == nil || ex.Obj() != n.Obj())
 	})), "eventMetrics")
+	// the HTTP adapter's http.RoundTripper: the struct of package failsafehttp that declares RoundTrip
+	set(one(structsOf("failsafehttp", func(n *types.Named, _ *types.Struct) bool {
+		for i := 0; i < n.NumMethods(); i++ {
+			if n.Method(i).Name() == "RoundTrip" {
+				return true
+			}
+		}
+		return false
+	})), "roundTripper")
 	// rate limiter: stats interface = the limiter's interface-typed field; bursty = the implementation with a plain
 	// int permit balance, smooth = the other
 	if rl := one(structsOf("ratelimiter", declaresToExecutor)); rl != nil {
